@@ -495,3 +495,75 @@ Proof.
     { intros H. apply andb_prop in H. destruct H as [H1 H2]. split; lia. }
     split; [reflexivity|]. split; [lia|]. split; [lia|]. intros _. split; reflexivity.
 Qed.
+
+(* ------------------------------------------------------------ "accessible => none" on the records themselves *)
+Lemma enumerate_app {A} (l1 l2 : list A) i :
+  enumerate_from i (l1 ++ l2) = enumerate_from i l1 ++ enumerate_from (i + Z.of_nat (length l1)) l2.
+Proof.
+  revert i. induction l1 as [|x t IH]; intros i; cbn [app enumerate_from length].
+  - replace (i + Z.of_nat 0) with i by lia. reflexivity.
+  - rewrite IH. replace (i + 1 + Z.of_nat (length t)) with (i + Z.of_nat (S (length t))) by lia. reflexivity.
+Qed.
+
+Lemma enumerate_in_list {A} (l : list A) i a k : In (a, k) (enumerate_from i l) -> In a l.
+Proof. intros H. apply enumerate_in in H. destruct H as [_ H]. eapply nth_error_In. exact H. Qed.
+
+(* the examined value lies in a region that intersects no other region and permits the operation: the lookup
+   finds exactly that region (C08 completeness) and nothing is reported *)
+Lemma lookup_isolated rs1 mi rs2 r a :
+  wf_regions (rs1 ++ mi :: rs2) -> rg_range mi = Some r -> contains r a = true ->
+  (forall mi' r', In mi' (rs1 ++ rs2) -> rg_range mi' = Some r' -> intersects r r' = false) ->
+  lookup_region (rs1 ++ mi :: rs2) a = Some mi.
+Proof.
+  intros Hwf Hr Hc Hiso. unfold lookup_region, region_table.
+  rewrite map_app. cbn [map]. rewrite enumerate_app. cbn [enumerate_from]. rewrite Hr.
+  rewrite (isolated_complete Z.eqb Z.eqb_eq _ r (0 + Z.of_nat (length (map rg_range rs1))) _ a).
+  - rewrite map_length. replace (Z.to_nat (0 + Z.of_nat (length rs1))) with (length rs1) by lia.
+    rewrite nth_error_app2 by lia. rewrite Nat.sub_diag. reflexivity.
+  - pose proof (enumerate_wf (rs1 ++ mi :: rs2) 0 Hwf) as H.
+    rewrite map_app in H. cbn [map] in H. rewrite enumerate_app in H. cbn [enumerate_from] in H. rewrite Hr in H. exact H.
+  - intros r' v' Hin. apply in_app_or in Hin.
+    assert (Hm : In (Some r') (map rg_range (rs1 ++ rs2))).
+    { rewrite map_app. apply in_or_app. destruct Hin as [Hin|Hin]; [left|right]; eapply enumerate_in_list; exact Hin. }
+    apply in_map_iff in Hm. destruct Hm as [mi' [Hr' Hmi']]. eapply Hiso; eassumption.
+  - exact Hc.
+Qed.
+
+Lemma none_when_accessible_isolated rs1 mi rs2 r a reg br ctx op :
+  wf_regions (rs1 ++ mi :: rs2) -> rg_range mi = Some r -> contains r a = true ->
+  (forall mi' r', In mi' (rs1 ++ rs2) -> rg_range mi' = Some r' -> intersects r r' = false) ->
+  possibly_allowed op mi = true ->
+  try_bit_flips a reg br ctx (rs1 ++ mi :: rs2) op = [].
+Proof.
+  intros Hwf Hr Hc Hiso Hp. eapply none_when_accessible; [|exact Hp]. eapply lookup_isolated; eassumption.
+Qed.
+
+(* ------------------------------------------------------------ completeness: try_bit_flips reports EVERY qualifying neighbour *)
+Lemma flips_loop_complete n : forall i a reg br ctx rs op j,
+  i <= j < i + Z.of_nat n ->
+  (Z.lxor a (2 ^ j) = 0 \/
+   exists mi, lookup_region rs (Z.lxor a (2 ^ j)) = Some mi /\ possibly_allowed op mi = true) ->
+  In (mk_flip a (Z.lxor a (2 ^ j)) reg br ctx) (flips_loop n i a reg br ctx rs op).
+Proof.
+  induction n as [|n IH]; intros i a reg br ctx rs op j Hj Hq; [lia|].
+  cbn [flips_loop]. destruct (Z.eq_dec j i) as [->|Hne].
+  - destruct Hq as [H0|[mi [Hl Hp]]].
+    + apply in_or_app. left. rewrite H0. cbn. left. reflexivity.
+    + apply in_or_app. right. apply in_or_app. left. rewrite Hl, Hp. left. reflexivity.
+  - apply in_or_app. right. apply in_or_app. right. apply IH; [lia|exact Hq].
+Qed.
+
+Lemma try_bit_flips_complete a reg br ctx rs op j :
+  (forall mi, lookup_region rs a = Some mi -> possibly_allowed op mi = false) ->
+  br_lo br <= j < br_hi br ->
+  (Z.lxor a (2 ^ j) = 0 \/
+   exists mi, lookup_region rs (Z.lxor a (2 ^ j)) = Some mi /\ possibly_allowed op mi = true) ->
+  exists f, In f (try_bit_flips a reg br ctx rs op) /\ f_addr f = Z.lxor a (2 ^ j) /\ f_reg f = reg.
+Proof.
+  intros Hna Hj Hq. unfold try_bit_flips, br_lo, br_hi in *.
+  destruct (lookup_region rs a) as [mi|] eqn:El.
+  - rewrite (Hna mi eq_refl). destruct (br_bounds br) as [lo hi] eqn:Eb. cbn [fst snd] in Hj.
+    eexists. split; [apply (flips_loop_complete _ lo a reg br ctx rs op j); [lia|exact Hq]|]. split; reflexivity.
+  - destruct (br_bounds br) as [lo hi] eqn:Eb. cbn [fst snd] in Hj.
+    eexists. split; [apply (flips_loop_complete _ lo a reg br ctx rs op j); [lia|exact Hq]|]. split; reflexivity.
+Qed.
